@@ -39,6 +39,29 @@ type Session struct {
 	Errors    []string
 	Log       io.Writer // optional transcript
 	buf       strings.Builder
+	inScope   bool
+	scopeDefs []int
+	scopeVars []string
+	scopeFuns []string
+}
+
+func (s *Session) markVar(n string) {
+	s.declVar[n] = true
+	if s.inScope {
+		s.scopeVars = append(s.scopeVars, n)
+	}
+}
+func (s *Session) markDef(id int) {
+	s.defined[id] = true
+	if s.inScope {
+		s.scopeDefs = append(s.scopeDefs, id)
+	}
+}
+func (s *Session) markFun(n string) {
+	s.declFun[n] = true
+	if s.inScope {
+		s.scopeFuns = append(s.scopeFuns, n)
+	}
 }
 
 func NewSession(c *Ctx, kind string, timeoutMs int) (*Session, error) {
@@ -150,7 +173,7 @@ func (s *Session) ref(sb *strings.Builder, t *Term) string {
 	case OpVar:
 		n := symName(t.Name)
 		if !s.declVar[t.Name] {
-			s.declVar[t.Name] = true
+			s.markVar(t.Name)
 			fmt.Fprintf(sb, "(declare-const %s %s)\n", n, t.Sort)
 		}
 		return n
@@ -173,7 +196,7 @@ func (s *Session) ref(sb *strings.Builder, t *Term) string {
 			if !a.IsConst() && a.Op != OpVar && !s.defined[a.ID] {
 				stack = append(stack, fr{a, 0})
 			} else if a.Op == OpVar && !s.declVar[a.Name] {
-				s.declVar[a.Name] = true
+				s.markVar(a.Name)
 				fmt.Fprintf(sb, "(declare-const %s %s)\n", symName(a.Name), a.Sort)
 			}
 			continue
@@ -183,7 +206,7 @@ func (s *Session) ref(sb *strings.Builder, t *Term) string {
 		if s.defined[x.ID] {
 			continue
 		}
-		s.defined[x.ID] = true
+		s.markDef(x.ID)
 		fmt.Fprintf(sb, "(define-fun t%d () %s %s)\n", x.ID, x.Sort, s.body(sb, x))
 	}
 	return name
@@ -226,7 +249,7 @@ func (s *Session) body(sb *strings.Builder, t *Term) string {
 	case OpApp:
 		d := s.C.Funs[t.Name]
 		if !s.declFun[t.Name] {
-			s.declFun[t.Name] = true
+			s.markFun(t.Name)
 			var as []string
 			for _, a := range d.Args {
 				as = append(as, a.String())
@@ -287,6 +310,7 @@ func (s *Session) Check(extra ...*Term) Result {
 		refs = append(refs, s.ref(&sb, e))
 	}
 	if len(refs) > 0 {
+		s.inScope = true
 		sb.WriteString("(push 1)\n")
 		for _, r := range refs {
 			fmt.Fprintf(&sb, "(assert %s)\n", r)
@@ -315,7 +339,19 @@ func (s *Session) Check(extra ...*Term) Result {
 }
 
 // Pop must follow a Check(extra...) with len(extra)>0 once the model (if any) was read.
-func (s *Session) Pop() { s.send("(pop 1)\n") }
+func (s *Session) Pop() {
+	s.send("(pop 1)\n")
+	for _, id := range s.scopeDefs {
+		delete(s.defined, id)
+	}
+	for _, n := range s.scopeVars {
+		delete(s.declVar, n)
+	}
+	for _, n := range s.scopeFuns {
+		delete(s.declFun, n)
+	}
+	s.scopeDefs, s.scopeVars, s.scopeFuns, s.inScope = nil, nil, nil, false
+}
 
 // CheckPop = Check + Pop when extra is non-empty.
 func (s *Session) CheckPop(extra ...*Term) Result {
